@@ -63,7 +63,11 @@ commodity_t * commodity_pool_t::create(const string& symbol)
   // Create the "qualified symbol" version of this commodity's symbol
   if (commodity_t::symbol_needs_quotes(symbol)) {
     commodity->qualified_symbol = "\"";
-    *commodity->qualified_symbol += symbol;
+    foreach (char ch, symbol) {
+      if (ch == '"' || ch == '\\')
+        *commodity->qualified_symbol += '\\';
+      *commodity->qualified_symbol += ch;
+    }
     *commodity->qualified_symbol += "\"";
   }
 
